@@ -48,13 +48,17 @@ func collConfig(r *rng, mode string) (Config, genOpts) {
 		cfg.Concern = r.pick([]int{40, 40, 20})
 		cfg.LevelMaxSegs = 1 + r.intn(4)
 		cfg.LevelMult = 2 + r.intn(8)
-		switch r.intn(3) {
+		// files of a few small segments are mostly page padding, which calcPartialCompactionStart
+		// counts as fragmentation: only a threshold of 1.0 lets leveled (partial) compaction happen there
+		switch r.intn(5) {
 		case 0:
 			cfg.PctN, cfg.PctD = 1, 10
 		case 1:
 			cfg.PctN, cfg.PctD = 65, 100
 		case 2:
 			cfg.PctN, cfg.PctD = 99, 100
+		default:
+			cfg.PctN, cfg.PctD = 1, 1
 		}
 		if r.chance(1, 2) {
 			cfg.BufPages = 1
@@ -67,6 +71,45 @@ func collConfig(r *rng, mode string) (Config, genOpts) {
 		}
 	}
 	o.bigKey = r.chance(1, 6)
+	if cfg.LL == "store" && cfg.Concern == 1 {
+		o.bigFirst = r.chance(2, 3)
+		if o.bigFirst {
+			cfg.LevelMult = 2 + r.intn(2)
+			cfg.LevelMaxSegs = 1 + r.intn(2)
+			cfg.PctN, cfg.PctD = 1, 1
+		}
+	}
+	// blind cases: no reads between the labels (a third of the DeferredSort cases, a tenth of the others)
+	if cfg.DeferredSort {
+		o.blind = r.chance(1, 3)
+	} else {
+		o.blind = r.chance(1, 10)
+	}
+	if o.blind && mode != "tree" {
+		o.wideFirst = r.chance(1, 2)
+	}
+	unread := false
+	// one case in eight: the unread-segment profile.  Deferred sort, no reads between labels, a
+	// wide first batch that the merger leaves unmerged, plain append persistence: segments reach
+	// the persister (and the file) without anybody having looked at them
+	if mode != "tree" && mode != "map" && r.chance(1, 6) {
+		cfg.DeferredSort = true
+		cfg.LL = "store"
+		cfg.Concern = 0
+		if cfg.MMPn == 1 {
+			cfg.MMPn, cfg.MMPd = 8, 10
+		}
+		cfg.LevelMaxSegs, cfg.LevelMult, cfg.PctN, cfg.PctD = 2, 3, 65, 100
+		cfg.NoSync = true
+		o.blind, o.wideFirst, o.bigFirst = true, true, false
+		unread = true
+	}
+	if cfg.LL == "store" {
+		o.persistHeavy = o.bigFirst || r.chance(1, 3)
+		if unread {
+			o.persistHeavy = r.chance(1, 2)
+		}
+	}
 	return cfg, o
 }
 
@@ -78,6 +121,9 @@ func famColl(w *bufio.Writer, seed uint64, n, labels int, mode, replay string) e
 		r := newRng(cs ^ 0xabcdef)
 		cfg, o := collConfig(r, mode)
 		nl := labels/2 + r.intn(labels+1)
+		if o.persistHeavy {
+			nl *= 2
+		}
 		hh, err := runCollCase(w, i, cs, cfg, nl, o)
 		for k, v := range hh {
 			hist[k] += v
